@@ -61,8 +61,8 @@ def run(rep, tier, rng):
         ln = rr.choice([0, 1, 2, 3, 5, 8])
         rp = rr.choice([0, 10, 100, 2**31, 2**32 - 20])
         wp = rp + rr.choice([-ln - 3, -ln, -2, -1, 0, 1, 2, ln, ln + 3, 50]) if rr.chance(3, 4) else rr.choice([0, 7, 5000])
-        if wp < 0 or wp + ln >= 2**32 or rp + ln >= 2**32:
-            wp = rp + ln + 4
+        if wp < 0 or wp + ln + 1 >= 2**32:
+            wp = max(0, rp - ln - 4)      # keep every touched address (one past the ranges included) below 2^32
         mem = {}
         stores = []
         for a in sorted(set(list(range(rp, rp + ln + 1)) + list(range(wp, wp + ln + 1)))):
